@@ -85,4 +85,10 @@ TABLE.update({
                 note=_FSX_NOTE),
 })
 
+TABLE.update({
+    "C06": dict(engine="ENUM", design_ref="DESIGN.md 4/C06", technique="bounded exhaustive enumeration of whole journeys judged step by step from the stored routes, plus the same oracle as an FSX transition monitor",
+                text="For every ordered pair of snapped positions on the straight-line network and on generated street graphs (2x3 grid with 33 m / 1.7 km streets at 10/40/100 km/h and over-long links; ring with chord), every step length in {7,30,60,61,300} (thorough: also 1 s, more graphs) and every target kind (station, base, request + trip, reposition) the real instruction is applied and real steps run until the vehicle leaves the travelling activity: every step respects junction, suffix, speed (whole-second link rounding), odometer = route = move event, progress and leave-within-one-step clauses. The same oracle runs on every transition of three FSX worlds (incl. arrivals with a full battery).",
+                note=_ENUM_NOTE),
+})
+
 NOT_APPLICABLE = {}
